@@ -395,6 +395,103 @@ class Body:
             if b is None:
                 return False
 
+    def postdominators(self, kinds="n"):
+        """ipdom array over normal edges with a virtual exit (index nblocks);
+        exits = blocks without successors of the given kinds"""
+        key = "pd" + kinds
+        if key in self._dom:
+            return self._dom[key]
+        n = self.nblocks
+        succ = self.succ(kinds)
+        EXIT = n
+        rsucc = [[] for _ in range(n + 1)]  # reversed graph successors = original preds
+        rpred = [[] for _ in range(n + 1)]
+        for b in range(n):
+            outs = succ[b] or [EXIT]
+            for s_ in outs:
+                rsucc[s_].append(b)
+                rpred[b].append(s_)
+        order = []
+        seen = [False] * (n + 1)
+        stack = [(EXIT, iter(rsucc[EXIT]))]
+        seen[EXIT] = True
+        while stack:
+            b, it = stack[-1]
+            adv = False
+            for s_ in it:
+                if not seen[s_]:
+                    seen[s_] = True
+                    stack.append((s_, iter(rsucc[s_])))
+                    adv = True
+                    break
+            if not adv:
+                order.append(b)
+                stack.pop()
+        rpo = list(reversed(order))
+        idx = {b: i for i, b in enumerate(rpo)}
+        ipdom = [None] * (n + 1)
+        ipdom[EXIT] = EXIT
+
+        def inter(a, b):
+            while a != b:
+                while idx[a] > idx[b]:
+                    a = ipdom[a]
+                while idx[b] > idx[a]:
+                    b = ipdom[b]
+            return a
+
+        changed = True
+        while changed:
+            changed = False
+            for b in rpo[1:]:
+                new = None
+                for p in rpred[b]:
+                    if p in idx and ipdom[p] is not None:
+                        new = p if new is None else inter(p, new)
+                if new is not None and ipdom[b] != new:
+                    ipdom[b] = new
+                    changed = True
+        self._dom[key] = ipdom
+        return ipdom
+
+    def postdominates(self, a, b, kinds="n"):
+        ip = self.postdominators(kinds)
+        if ip[b] is None:
+            return False
+        EXIT = self.nblocks
+        while True:
+            if a == b:
+                return True
+            if b == EXIT:
+                return False
+            b = ip[b]
+            if b is None:
+                return False
+
+    def control_deps(self, b, kinds="n", depth=6):
+        """switch blocks (and the edge taken) that block b is transitively control dependent on:
+        list of (switch_block, successor)"""
+        res = []
+        seen = set()
+        work = [(b, 0)]
+        succ = self.succ(kinds)
+        while work:
+            x, d = work.pop()
+            if d > depth:
+                continue
+            for sb in range(self.nblocks):
+                if self.blocks[sb]["term"]["k"] != "switch":
+                    continue
+                if self.postdominates(x, sb, kinds) and x != sb:
+                    continue
+                for t in succ[sb]:
+                    if self.postdominates(x, t, kinds):
+                        if (sb, t) not in seen:
+                            seen.add((sb, t))
+                            res.append((sb, t))
+                            work.append((sb, d + 1))
+        return res
+
     # ---------------------------------------------------------------- calls
     def calls(self, *pats):
         if self._calls is None:
@@ -725,6 +822,8 @@ def origins(body, start, extra_transparent=(), max_nodes=4000, through_fields=Tr
                 elif k == "discr":
                     o = Origin("discr", rv["ty"], b, rest, neg, extra=rv)
                     out[o.key()] = o
+                    if taint:
+                        push_place(rv["pl"], (), neg)
                 elif k == "agg":
                     o = Origin("agg", rv.get("adt") or rv.get("def") or rv.get("agg"), b, rest, neg, extra=rv)
                     out[o.key()] = o
